@@ -514,7 +514,58 @@ class StrRef:
         return tag
 
 
-REFS = {"vec": VecRef, "map": MapRef, "set": SetRef, "deq": DeqRef, "lst": LstRef, "str": StrRef}
+class BmpRef:
+    def __init__(self):
+        self.size = [0, 0]
+
+    def step(self, t):
+        k = t[1]
+        try:
+            a = [int(x) for x in t[2:]]
+        except ValueError:
+            return None
+        if not a or not (0 <= a[0] < 2) or any(x < 0 for x in a):
+            return None
+        i = a[0]; n = len(a)
+        if k == "new" and n == 2 and a[1] <= 200:
+            self.size[i] = a[1]
+        elif k in ("set", "clear", "toggle") and n == 2:
+            if a[1] >= self.size[i]:
+                return None
+        elif k == "clearall" and n == 1:
+            pass
+        else:
+            return None
+        return k
+
+
+def gen_bmp(r, maxops):
+    ref = BmpRef(); ops = []
+    nops = r.range(2, maxops)
+    _emit(ref, ops, "bmp new 0 %d" % r.choice([0, 1, 7, 8, 9, 15, 16, 17, 40, 64]))
+    if r.chance(1, 3):
+        _emit(ref, ops, "bmp new 1 %d" % r.range(0, 30))
+    tries = 0
+    while len(ops) < nops and tries < 4 * nops:
+        tries += 1
+        i = r.below(2)
+        if ref.size[i] == 0:
+            i = 0
+        k = r.weighted([("set", 8), ("clear", 5), ("toggle", 5), ("clearall", 1), ("new", 1)])
+        if k == "new":
+            line = "bmp new %d %d" % (i, r.range(0, 70))
+        elif k == "clearall":
+            line = "bmp clearall %d" % i
+        else:
+            if ref.size[i] == 0:
+                continue
+            b = r.choice([0, ref.size[i] - 1, r.below(ref.size[i]), r.below(ref.size[i])])
+            line = "bmp %s %d %d" % (k, i, b)
+        _emit(ref, ops, line)
+    return ops
+
+
+REFS = {"bmp": BmpRef, "vec": VecRef, "map": MapRef, "set": SetRef, "deq": DeqRef, "lst": LstRef, "str": StrRef}
 
 
 def tags(kind, ops):
